@@ -13,6 +13,9 @@ SPEC = {
         'AITB.Hidden.pool_unobservable',
         'AITB.Hidden.stepG_graph_indep',
         'AITB.Hidden.takeNode_indep',
+        'AITB.Hidden.call_output_independent_of_history',
+        'AITB.Hidden.viObject_reusable',
+        'AITB.Hidden.vi_reuse_eq_fresh',
     ],
     'harness': 'harness/c16.cpp',
     'post_build': _post_build,
@@ -22,7 +25,7 @@ SPEC = {
                   '(twice / unrelated prefix / reused solver object), which are tests and labelled as such',
     'timeout': {'quick': 600, 'thorough': 3000},
     'case_timeout': 120,
-    'rule': 'per subject (algorithm class) and scenario (twice, prefix, reuse) one bitwise comparison of flattened outputs; non-trivial = output longer than one number',
+    'rule': 'per subject (algorithm class) and scenario (twice, prefix, reuse, reuse_same_problem, fresh_process) one bitwise comparison of flattened outputs; non-trivial = output longer than one number',
     'modelled': ['src/Seeder.cpp (engine abstracted as a seed-indexed stream)', 'FactorGraph::factorAdjacenciesPool_ (getFactor/erase/copy take-and-overwrite discipline)',
                  'static-storage inventory via nm of the compiled objects'],
     'assumptions': ['std::mt19937 and libstdc++ uniform distributions are deterministic functions of seed/parameters (stateless distributions)',
